@@ -1,6 +1,7 @@
 package node
 
 import (
+	"slices"
 	"sync"
 
 	"github.com/siyul-park/uniflow/pkg/packet"
@@ -104,12 +105,15 @@ func (n *OneToManyNode) forward(proc *process.Process) {
 			if errWriter == nil {
 				errWriter = n.errPort.Open(proc)
 			}
+			errPck = derive(errPck, inPck)
 			n.tracer.Link(inPck, errPck)
 			n.tracer.Write(errWriter, errPck)
 		} else {
+			outPcks = slices.Clone(outPcks)
 			for i, outPck := range outPcks {
 				if i < len(outWriters) && outPck != nil {
-					n.tracer.Link(inPck, outPck)
+					outPcks[i] = derive(outPck, append(outPcks[:i:i], inPck)...)
+					n.tracer.Link(inPck, outPcks[i])
 				}
 			}
 
